@@ -19,3 +19,40 @@ fn sample_range_new() {
     let r = SampleRange::new(a..b);
     assert!(r.contains(&t) == (a <= t && t < b), "C34.range: get_range() denotes the configured range");
 }
+
+// ---- try_generate_time against the contract the Verus unit `timer` assumes for it --------------------------------
+// Only the generator's raw output (`StdRng::next_u32/next_u64`, ChaCha) is replaced -- by arbitrary words; rand's
+// uniform-range reduction is verified through.  Checked: the timer asks for the range it was configured with
+// (half-open for an exclusive end, closed for an inclusive one) and returns what it drew.
+use rand::RngCore;
+/// the generator's raw output: arbitrary words (the uniform-range reduction of the `rand` crate is verified through)
+fn any_u32(_g: &mut rand::rngs::StdRng) -> u32 { kani::any() }
+fn any_u64(_g: &mut rand::rngs::StdRng) -> u64 { kani::any() }
+/// BOUNDED: the configured range is concrete per obligation (with symbolic bounds the 64-bit widening multiplication
+/// of rand's range reduction did not finish in 15 min); the generator's output words are symbolic.
+fn try_generate_time_case(start: u32, end: u32, end_incl: bool) {
+    let range = SampleRange { start, end, end_incl };
+    // the generator's state is never consulted (its output functions are stubbed): a zeroed block stands for it
+    let generator: Box<rand::rngs::StdRng> = unsafe { Box::new(std::mem::zeroed()) };
+    let mut t = TimerDevice { generator, range, time: kani::any(), vect: kani::any(), priority: kani::any(), enabled: kani::any() };
+    let (time0, vect0, prio0, en0) = (t.time, t.vect, t.priority, t.enabled);
+    let got = t.try_generate_time();
+    assert!(member(&range, got), "C34.sample: the count drawn lies inside the configured range (exclusive end respected)");
+    assert!(t.time == time0 && t.vect == vect0 && t.priority == prio0 && t.enabled == en0 && t.range.start == range.start && t.range.end == range.end && t.range.end_incl == range.end_incl, "C34.sample: drawing a count changes nothing else");
+    t.reset_remaining();
+    assert!(member(&range, t.time), "C34.reset: reset_remaining reloads a count inside the range");
+    std::mem::forget(t);
+}
+macro_rules! sample_harness {
+    ($name:ident, $s:expr, $e:expr, $incl:expr) => {
+        #[kani::proof]
+        #[kani::stub(<rand::rngs::StdRng as RngCore>::next_u32, any_u32)]
+        #[kani::stub(<rand::rngs::StdRng as RngCore>::next_u64, any_u64)]
+        #[kani::unwind(4)]
+        fn $name() { try_generate_time_case($s, $e, $incl) }
+    };
+}
+sample_harness!(sample_exclusive_5_6, 5, 6, false);        // an exact count written as a half-open range
+sample_harness!(sample_exclusive_3_7, 3, 7, false);
+sample_harness!(sample_inclusive_3_7, 3, 7, true);
+sample_harness!(sample_inclusive_50_50, 50, 50, true);     // the default timer
